@@ -45,7 +45,7 @@ REQUIRED = ["transform_calls", "rotations_checked", "scales_checked", "translati
             "centre_root_far", "centre_origin", "root_not_at_position_0", "instance_reused",
             "inverse_checked", "isometry_checked", "builders_checked", "composed_checked",
             "classmethod_checked", "translate_origin_checked", "singular_scalings", "tap_apply"]
-FLOOR = {"quick": 1500, "thorough": 30000}
+FLOOR = {"quick": 1200, "thorough": 25000}
 SHARDS = {"quick": 8, "thorough": 16}
 TOL = 3e-5
 
